@@ -52,9 +52,10 @@ class FakeSock:
         return out
 
     def sendall(self, data):
-        self.sent.append((self.tls, bytes(data)))
+        # no bytes(...) here: a constructor call would realise a symbolic value
+        self.sent.append((self.tls, data))
         if self.server is not None:
-            self.pending = getattr(self, "pending", b"") + bytes(data)
+            self.pending = getattr(self, "pending", b"") + data
             reply = self.server.feed(self.pending)
             if reply is not None:
                 self.pending = b""
@@ -64,7 +65,10 @@ class FakeSock:
                     self.inbox.append(reply)
 
     def written(self):
-        return b"".join(d for _, d in self.sent)
+        out = b""
+        for _, d in self.sent:
+            out = out + d
+        return out
 
     def unread(self):
         return b"".join(self.inbox)
